@@ -28,12 +28,14 @@ import (
 )
 
 type Data struct {
-	Mode string `json:"mode"` // "value" | "labels" (read back with hclsyntax) | "labels-constructed" (Block.Labels() in memory) | "labels-hclwrite" (hclwrite.ParseConfig + Labels()) | "trav"
-	// value
-	V *VD `json:"v,omitempty"`
+	Mode string `json:"mode"` // "value" | "labels" (read back with hclsyntax) | "labels-constructed" (Block.Labels() in memory) | "labels-hclwrite" (hclwrite.ParseConfig + Labels()) | "labels2", "labels2-constructed", "labels2-hclwrite" (two-step: Labels, then SetLabels(Labels2)) | "trav"
+	// value; Name, if set, is the attribute name used for the SetAttributeValue path instead of "x"
+	V    *VD    `json:"v,omitempty"`
+	Name string `json:"name,omitempty"`
 	// labels
 	BlockType string   `json:"block_type,omitempty"`
 	Labels    []string `json:"labels,omitempty"`
+	Labels2   []string `json:"labels2,omitempty"`
 	// trav: Root == "" means a relative traversal
 	Root  string `json:"root,omitempty"`
 	Steps []Step `json:"steps,omitempty"`
@@ -71,6 +73,8 @@ var counters = newCounterSet(
 	"harness_unknown_counter", "harness_unknown_mode", "harness_build_error", "harness_scope_unbuildable", "harness_scope_mismatch",
 	"heredoc_generated", "unspecified_number_beyond_512_bits", "values_read_back",
 	"label_lists_read_back_hclsyntax", "label_lists_read_back_constructed", "label_lists_read_back_hclwrite",
+	"label_replacements_read_back_hclsyntax", "label_replacements_read_back_constructed", "label_replacements_read_back_hclwrite",
+	"values_nested_deeper_than_32", "values_nested_deeper_than_64", "values_with_token_over_4096_bytes", "labels_or_steps_over_4096_bytes",
 	"traversals_negative_number_key_checked_by_evaluation_only", "traversals_read_back_statically_and_by_evaluation",
 )
 
@@ -87,6 +91,12 @@ func judge(c engine.Case) engine.Outcome {
 		return judgeLabels(d, "constructed")
 	case "labels-hclwrite":
 		return judgeLabels(d, "hclwrite")
+	case "labels2":
+		return judgeLabels2(d, "hclsyntax")
+	case "labels2-constructed":
+		return judgeLabels2(d, "constructed")
+	case "labels2-hclwrite":
+		return judgeLabels2(d, "hclwrite")
 	case "trav":
 		return judgeTrav(d)
 	}
@@ -108,8 +118,17 @@ func judgeValue(d Data) engine.Outcome {
 	if f != nil {
 		return engine.Fail("c11."+classify(tokensChecker, v, f), "%s", f.detail)
 	}
-	af, un2 := checkAttr(v, unspecNum)
+	af, un2 := checkAttr(v, unspecNum, d.Name)
 	if af != nil {
+		if d.Name != "" && d.Name != "x" {
+			// about the attribute name, unless the value fails under the name x too
+			if f2 := tryCheck(attrChecker, v); f2 == nil {
+				small := smallestFailingIdent(d.Name, func(sub string) bool {
+					return tryCheck(func(w cty.Value) *failure { f, _ := checkAttr(w, false, sub); return f }, v) != nil
+				})
+				return engine.Fail("c11."+af.clause+".attribute-name."+stringFeatures(small)+tokenSizeSuffix(len(small)), "attribute name %s: %s", abbrev(d.Name), af.detail)
+			}
+		}
 		return engine.Fail("c11."+classify(attrChecker, v, af), "%s", af.detail)
 	}
 	if un1 || un2 {
@@ -117,21 +136,93 @@ func judgeValue(d Data) engine.Outcome {
 		return engine.Skip()
 	}
 	counters.Add("values_read_back", 1)
+	if dp := nestingDepth(v); dp > 64 {
+		counters.Add("values_nested_deeper_than_64", 1)
+	} else if dp > 32 {
+		counters.Add("values_nested_deeper_than_32", 1)
+	}
+	if maxTokenLen(v) > 4096 || len(d.Name) > 4096 {
+		counters.Add("values_with_token_over_4096_bytes", 1)
+	}
+	if d.Name != "" {
+		sig += " as " + abbrev(d.Name)
+	}
 	return engine.Pass("v:" + sig)
 }
 
 var labelPaths = []string{"NewBlock", "AppendNewBlock", "SetLabels", "SetLabelsFromNone"}
+
+// oneStepLabels checks one label list through every construction path; class
+// is "" when everything reads back, otherwise the class of the first failing
+// path, narrowed to the smallest label that fails on its own.
+func oneStepLabels(reader, typeName string, labels []string) (sig, class, detail string) {
+	for i, p := range labelPaths {
+		s, cl, det := checkLabelsOnce(reader, p, typeName, labels)
+		if cl != "" {
+			cl = narrowLabelClass(reader, p, typeName, labels, cl)
+			if i > 0 {
+				cl += ".via-" + p
+			}
+			return "", cl, det
+		}
+		if i == 0 {
+			sig = s
+		}
+	}
+	return sig, "", ""
+}
+
+func longest(ss ...string) int {
+	m := 0
+	for _, s := range ss {
+		if len(s) > m {
+			m = len(s)
+		}
+	}
+	return m
+}
 
 func judgeLabels(d Data, reader string) engine.Outcome {
 	typeName := d.BlockType
 	if typeName == "" {
 		typeName = "blk"
 	}
+	sig, class, detail := oneStepLabels(reader, typeName, d.Labels)
+	if class != "" {
+		return engine.Fail(class, "%s", detail)
+	}
+	counters.Add("label_lists_read_back_"+reader, 1)
+	if longest(append([]string{typeName}, d.Labels...)...) > 4096 {
+		counters.Add("labels_or_steps_over_4096_bytes", 1)
+	}
+	return engine.Pass("l:" + reader + ":" + clipSig(sig))
+}
+
+// clipSig keeps signatures of long generated sources short but distinct.
+func clipSig(s string) string {
+	if len(s) <= 200 {
+		return s
+	}
+	return abbrev(s)
+}
+
+// judgeLabels2: a block constructed with Labels, then SetLabels(Labels2),
+// reads back as Labels2. A failure that the final label list shows on its own
+// in one step is the one-step failure (same class); anything else is a
+// failure of the replacement and gets a "replace." class.
+func judgeLabels2(d Data, reader string) engine.Outcome {
+	typeName := d.BlockType
+	if typeName == "" {
+		typeName = "blk"
+	}
 	sig := ""
-	for i, p := range labelPaths {
-		s, class, detail := checkLabelsOnce(reader, p, typeName, d.Labels)
+	for i, p := range label2Paths {
+		s, class, detail := checkLabels2Once(reader, p, typeName, d.Labels, d.Labels2)
 		if class != "" {
-			class = narrowLabelClass(reader, p, typeName, d.Labels, class)
+			if _, c1, _ := oneStepLabels(reader, typeName, d.Labels2); c1 != "" {
+				return engine.Fail(c1, "%s", detail)
+			}
+			class = narrowLabel2Class(reader, p, typeName, d.Labels, d.Labels2, class)
 			if i > 0 {
 				class += ".via-" + p
 			}
@@ -141,8 +232,67 @@ func judgeLabels(d Data, reader string) engine.Outcome {
 			sig = s
 		}
 	}
-	counters.Add("label_lists_read_back_"+reader, 1)
-	return engine.Pass("l:" + reader + ":" + sig)
+	counters.Add("label_replacements_read_back_"+reader, 1)
+	return engine.Pass("l2:" + reader + ":" + abbrevList(d.Labels) + ">" + clipSig(sig))
+}
+
+// narrowLabel2Class names a failing replacement after the smallest pair of
+// label lists that fails in the same way: one label of each list, then parts
+// of the two labels (shortest total first).
+func narrowLabel2Class(reader, path, typeName string, first, second []string, class string) string {
+	try := func(a, b []string) (cl string) {
+		defer func() {
+			if r := recover(); r != nil {
+				cl = ""
+			}
+		}()
+		if _, c1, _ := oneStepLabels(reader, typeName, b); c1 != "" {
+			return ""
+		}
+		_, cl, _ = checkLabels2Once(reader, path, typeName, a, b)
+		return cl
+	}
+	if len(first) != 1 || len(second) != 1 {
+		for _, a := range first {
+			for _, b := range second {
+				if cl := try([]string{a}, []string{b}); cl != "" {
+					return narrowLabel2Class(reader, path, typeName, []string{a}, []string{b}, cl)
+				}
+			}
+		}
+		return class
+	}
+	ra, rb := []rune(first[0]), []rune(second[0])
+	if len(ra) > 8 || len(rb) > 8 {
+		return class
+	}
+	subs := func(rs []rune, n int) []string {
+		seen := map[string]bool{}
+		var out []string
+		for i := 0; i+n <= len(rs); i++ {
+			if s := string(rs[i : i+n]); !seen[s] {
+				seen[s] = true
+				out = append(out, s)
+			}
+		}
+		return out
+	}
+	for total := 0; total < len(ra)+len(rb); total++ {
+		for na := 0; na <= total && na <= len(ra); na++ {
+			nb := total - na
+			if nb > len(rb) {
+				continue
+			}
+			for _, a := range subs(ra, na) {
+				for _, b := range subs(rb, nb) {
+					if cl := try([]string{a}, []string{b}); cl != "" {
+						return cl
+					}
+				}
+			}
+		}
+	}
+	return class
 }
 
 // narrowLabelClass re-runs the failing reader and path on single labels and on
@@ -167,13 +317,12 @@ func narrowLabelClass(reader, path, typeName string, labels []string, class stri
 		return class
 	}
 	if len(labels) == 1 {
-		rs := []rune(labels[0])
-		for n := 1; n < len(rs); n++ {
-			for i := 0; i+n <= len(rs); i++ {
-				if cl := try([]string{string(rs[i : i+n])}); cl != "" {
-					return cl
-				}
-			}
+		found := ""
+		if _, ok := smallestFailingSub(labels[0], func(sub string) bool {
+			found = try([]string{sub})
+			return found != ""
+		}); ok {
+			return found
 		}
 	}
 	return class
@@ -246,18 +395,19 @@ func travOnce(root string, steps []Step) (sig, clause, detail string, skippedSta
 // the smallest failing substring; the class is "<clause>.<step shape>" of
 // that smallest failing sub-case.
 func classifyTrav(root string, steps []Step, clause string) string {
-	try := func(st []Step) (cl string) {
+	tryRoot := func(r string, st []Step) (cl string) {
 		defer func() {
 			if r := recover(); r != nil {
 				cl = "panic"
 			}
 		}()
-		_, cl, _, _, h := travOnce(root, st)
+		_, cl, _, _, h := travOnce(r, st)
 		if h {
 			return ""
 		}
 		return cl
 	}
+	try := func(st []Step) string { return tryRoot(root, st) }
 	shapeOf := func(st []Step) string {
 		t, err := buildTraversal("", st)
 		if err != nil || len(t) == 0 {
@@ -291,14 +441,33 @@ func classifyTrav(root string, steps []Step, clause string) string {
 		return clause + "." + shapeOf(steps)
 	}
 	if len(steps) == 1 && steps[0].K == "str" {
-		rs := []rune(steps[0].S)
-		for n := 1; n < len(rs); n++ {
-			for i := 0; i+n <= len(rs); i++ {
-				st := []Step{{"str", string(rs[i : i+n])}}
-				if cl := try(st); cl != "" {
-					return cl + "." + shapeOf(st)
-				}
-			}
+		found := ""
+		if sub, ok := smallestFailingSub(steps[0].S, func(sub string) bool {
+			found = try([]Step{{"str", sub}})
+			return found != ""
+		}); ok {
+			return found + "." + shapeOf([]Step{{"str", sub}})
+		}
+	}
+	if len(root) > 32 && tryRoot("a", steps) == "" {
+		// the root name is a long identifier token and the same steps after a
+		// short root read back: the failure is about the root (named after
+		// the shortest prefix of it that fails too)
+		small := smallestFailingIdent(root, func(sub string) bool { return tryRoot(sub, steps) != "" })
+		return clause + ".root" + tokenSizeSuffix(len(small))
+	}
+	if len(steps) == 1 && steps[0].K == "attr" && len(steps[0].S) > 32 {
+		small := smallestFailingIdent(steps[0].S, func(sub string) bool { return try([]Step{{"attr", sub}}) != "" })
+		return clause + "." + shapeOf([]Step{{"attr", small}})
+	}
+	if len(steps) == 1 && steps[0].K == "num" {
+		if t, err := buildTraversal("", steps); err == nil && len(t) == 1 {
+			key := t[0].(hcl.TraverseIndex).Key
+			suf := numberSizeSuffix(key, func(w cty.Value) bool {
+				name, ok := powerOfTenName(w)
+				return ok && try([]Step{{"num", name}}) != ""
+			})
+			return clause + ".index-number-" + numberShape(key) + suf
 		}
 	}
 	return clause + "." + shapeOf(steps)
@@ -318,7 +487,10 @@ func judgeTrav(d Data) engine.Outcome {
 	} else {
 		counters.Add("traversals_read_back_statically_and_by_evaluation", 1)
 	}
-	return engine.Pass("t:" + sig)
+	if len(sig) > 4096 {
+		counters.Add("labels_or_steps_over_4096_bytes", 1)
+	}
+	return engine.Pass("t:" + clipSig(sig))
 }
 
 // ---- shrink -----------------------------------------------------------
@@ -330,7 +502,15 @@ func shrink(c engine.Case) []engine.Case {
 	case "value":
 		if d.V != nil {
 			for _, s := range shrinkVD(*d.V) {
-				out = append(out, valueCase(s))
+				out = append(out, valueCaseNamed(s, d.Name))
+			}
+			if d.Name != "" {
+				out = append(out, valueCase(*d.V))
+				for _, n := range shrinkString(d.Name) {
+					if hclsyntax.ValidIdentifier(n) && n != "y" && n != "z" {
+						out = append(out, valueCaseNamed(*d.V, n))
+					}
+				}
 			}
 		}
 	case "labels", "labels-constructed", "labels-hclwrite":
@@ -340,15 +520,39 @@ func shrink(c engine.Case) []engine.Case {
 			out = append(out, labelsCase(d.BlockType, ls))
 		}
 		for i, l := range d.Labels {
-			rs := []rune(l)
-			for j := range rs {
+			for _, c := range shrinkString(l) {
 				ls := append([]string{}, d.Labels...)
-				ls[i] = string(append(append([]rune{}, rs[:j]...), rs[j+1:]...))
+				ls[i] = c
 				out = append(out, labelsCase(d.BlockType, ls))
 			}
 		}
 		if d.BlockType != "blk" {
 			out = append(out, labelsCase("blk", d.Labels))
+		}
+	case "labels2", "labels2-constructed", "labels2-hclwrite":
+		mk := func(a, b []string) engine.Case { return labels2CaseMode(d.Mode, d.BlockType, a, b) }
+		for i := range d.Labels {
+			out = append(out, mk(append(append([]string{}, d.Labels[:i]...), d.Labels[i+1:]...), d.Labels2))
+		}
+		for i := range d.Labels2 {
+			out = append(out, mk(d.Labels, append(append([]string{}, d.Labels2[:i]...), d.Labels2[i+1:]...)))
+		}
+		for i, l := range d.Labels {
+			for _, c := range shrinkString(l) {
+				ls := append([]string{}, d.Labels...)
+				ls[i] = c
+				out = append(out, mk(ls, d.Labels2))
+			}
+		}
+		for i, l := range d.Labels2 {
+			for _, c := range shrinkString(l) {
+				ls := append([]string{}, d.Labels2...)
+				ls[i] = c
+				out = append(out, mk(d.Labels, ls))
+			}
+		}
+		if d.BlockType != "blk" {
+			out = append(out, labels2CaseMode(d.Mode, "blk", d.Labels, d.Labels2))
 		}
 	case "trav":
 		for i := range d.Steps {
@@ -360,16 +564,12 @@ func shrink(c engine.Case) []engine.Case {
 		}
 		for i, s := range d.Steps {
 			if s.K != "num" {
-				rs := []rune(s.S)
-				for j := range rs {
-					if s.K == "attr" && len(rs) == 1 {
+				for _, c := range shrinkString(s.S) {
+					if s.K == "attr" && !hclsyntax.ValidIdentifier(c) {
 						continue
 					}
 					st := append([]Step{}, d.Steps...)
-					st[i] = Step{K: s.K, S: string(append(append([]rune{}, rs[:j]...), rs[j+1:]...))}
-					if s.K == "attr" && !hclsyntax.ValidIdentifier(st[i].S) {
-						continue
-					}
+					st[i] = Step{K: s.K, S: c}
 					out = append(out, travCase(d.Root, st))
 				}
 			}
